@@ -415,7 +415,7 @@ class StmtMixin(object):
             n = z3.simplify(z3.Length(seq.t))
             if z3.is_int_value(n) and n.as_long() <= 8:
                 return self.unroll_for(node, [SV(seq.sort.elem, z3.simplify(nth(seq.t, i))) for i in range(n.as_long())], st)
-            raise OutsideSubset('loop %d (line %d) has no invariant' % (k, node.lineno))
+            raise OutsideSubset('loop %s (line %d) has no invariant' % (k if k is not None else 'of an inlined helper', node.lineno))
         extra = {'_seq': seq, '_i': mk_int(0)}
         for lbl, text in spec.inv.items():
             self.oblige(st, 'invariant-init', 'loop%d:%s' % (k, lbl), self.spec_bool(text, st, extra), text)
@@ -502,7 +502,7 @@ class StmtMixin(object):
             self.roles['_w%d' % j] = nm           # _w0, _w1, ...: the variables of the loop test, in order of appearance
             st.env['_w%d_entry' % j] = st.env[nm]  # ... and the values they have when the loop is reached
         if spec is None:
-            raise OutsideSubset('loop %d (line %d) has no invariant' % (k, node.lineno))
+            raise OutsideSubset('loop %s (line %d) has no invariant' % (k if k is not None else 'of an inlined helper', node.lineno))
         for lbl, text in spec.inv.items():
             self.oblige(st, 'invariant-init', 'loop%d:%s' % (k, lbl), self.spec_bool(text, st), text)
         havocked = self.havoc_for_loop(st, node, spec)
